@@ -26,8 +26,11 @@ def c17_configs(gapless):
                   ("names", {"struct_name": "Nm", "vis": "pub"}), ("MIN", {"name": "FIRST", "vis": "pub"}), "Debug", "TryFrom", ("sorted", {})])
     sv = Config(list(full_t.feats) + [("sorted", {"value": None})])
     snv = Config(list(full_m.feats) + [("sorted", {"name": None, "value": None})])
+    # sorted(name) next to the table modes (seed C17-r6m2: a by-name table for from_str taken from the hash-ordered list)
+    snt = Config(list(full_t.feats) + [("sorted", {"name": None})])
+    snvt = Config(list(full_t.feats) + [("sorted", {"name": None, "value": None})])
     return [("full-table", full_t), ("full-match", full_m), ("sorted-value", sv), ("named", named), ("split3", split3), ("params", vis),
-            ("sorted-name-value", snv)]
+            ("sorted-name-value", snv), ("sorted-name-table", snt), ("sorted-name-value-table", snvt)]
 
 
 def run_orders(decl_texts, cap=200000):
@@ -103,7 +106,7 @@ def c17(tier):
         for comb in itertools.combinations(window, n):
             for perm in itertools.permutations(comb):
                 d = make_decl("i8", list(perm), renames=True, salt=len(decls))
-                for lab, cfg in c17_configs(d.gapless)[:3 if n > 2 else 7]:
+                for lab, cfg in c17_configs(d.gapless)[:3 if n > 2 else 9]:
                     decls.append(("S%s/%s" % (list(perm), lab), d.render(cfg.attr_lines(), indent="")))
     for n in range(4, maxn + 1):
         for comb in itertools.combinations(window, n):
@@ -249,20 +252,30 @@ def c18(tier):
                     continue
                 sets.append(list(comb))
     # value sets touching the limits of the narrow reprs (where +1/-1 wraps in the smallest admissible repr but not in a wider one)
-    limits = [-128, 127, 255, -32768, 32767, 65535] + ([-(1 << 31), (1 << 31) - 1, (1 << 32) - 1, enums.I64_MIN, enums.I64_MAX] if tier == "thorough" else [enums.I64_MAX])
+    limits = [-128, 127, 255, -32768, 32767, 65535, -(1 << 31), (1 << 31) - 1, (1 << 32) - 1] + ([enums.I64_MIN, enums.I64_MAX] if tier == "thorough" else [enums.I64_MAX])
+    limit_sets = []
     for L in limits:
         below = L - 1 if L > 0 else L + 1
         for comb in ([0, L], sorted([below, L]), sorted([0, 5, L]), sorted([0, below, L])):
             comb = sorted(set(comb))
             if comb not in sets and all(enums.I64_MIN <= v <= enums.I64_MAX for v in comb):
                 sets.append(comb)
+                limit_sets.append(comb)
+    # The argument alphabet of a value set is clipped to what EVERY admissible repr can represent, so the values just beyond a
+    # narrow repr's limit are never asked. Each limit set is therefore explored a second time among the 64-bit-and-wider reprs only
+    # (seed C18-r6m1: pointer-sized reprs treated as 32 bit wide), with the unclipped neighbourhood as arguments.
+    WIDE = ("i64", "u64", "i128", "u128", "isize", "usize")
+    jobs = [(si, comb, None) for si, comb in enumerate(sets)]
+    for comb in limit_sets:
+        if any(r not in WIDE for r in admissible_reprs(comb)) and any(r in WIDE for r in admissible_reprs(comb)):
+            jobs.append((len(jobs), comb, WIDE))
     names_for = {}
-    for si, comb in enumerate(sets):
+    for si, comb, only in jobs:
         # names are attached to VALUES (the discriminant -> name map is what must be preserved)
         nm = {}
         for j, v in enumerate(sorted(comb)):
             nm[v] = ("N%d" % j, enums.AWKWARD[(si + j) % len(enums.AWKWARD)] if (si + j) % 3 == 0 else None)
-        reprs = admissible_reprs(comb)
+        reprs = [r for r in admissible_reprs(comb) if only is None or r in only]
         # one argument alphabet for the whole value set: neighbours of members representable in EVERY admissible repr
         lo_all, hi_all = max(rmin(r) for r in reprs), min(rmax(r) for r in reprs)
         args = sorted(set(x for v in comb for x in range(v - 2, v + 3) if lo_all <= x <= hi_all))
@@ -278,14 +291,17 @@ def c18(tier):
                     subs.append(Subj("v%04d_p%02d_%s_%s" % (si, pi, r, cs), d, cfg, args=a, sweep_full=False,
                                      bounds=dict(x1_depth=2, x2_extra=2, x2_cap=6, range_x1_depth=1, range_x2_extra=1, consumers=False)))
     # large value sets (index arithmetic beyond 8 bits) under every repr that can hold them, one scrambled order + ascending
-    big_sets = [list(range(0, 300)), [x for x in range(0, 303) if x not in (100, 101, 200)]]
+    # (and sets that the 8-bit reprs can still hold: table indices beyond the positive half of i8 - seed C18-r6m2)
+    big_sets = [list(range(0, 300)), [x for x in range(0, 303) if x not in (100, 101, 200)], list(range(-100, 100)), list(range(0, 256)),
+                [x for x in range(-128, 128) if x not in (-3, 70)]]
     if tier == "thorough":
         big_sets.append(list(range(-150, 150)))
     for bi, vals in enumerate(big_sets):
-        reprs = [r for r in admissible_reprs(vals) if tier == "thorough" or r in ("i16", "u16", "i32", "u64")]
+        quick_reprs = ("i8", "u8", "i16", "u16", "i32", "u64")
+        reprs = [r for r in admissible_reprs(vals) if tier == "thorough" or r in quick_reprs]
         lo_all, hi_all = max(rmin(r) for r in reprs), min(rmax(r) for r in reprs)
         args = sorted(set(x for v in (vals[0], vals[-1], vals[len(vals) // 2]) for x in range(v - 2, v + 3) if lo_all <= x <= hi_all))
-        for oi, order in enumerate((vals, vals[150:] + vals[:150][::-1])):
+        for oi, order in enumerate((vals, vals[len(vals) // 2:] + vals[:len(vals) // 2][::-1])):
             for r in reprs:
                 variants = [Variant("N%d" % (v - vals[0]), lit=str(v), rename=enums.AWKWARD[v % len(enums.AWKWARD)] if v % 7 == 3 else None) for v in order]
                 d = EnumDecl(r, variants, tag={"family": "S-big", "n": len(vals)})
